@@ -1,5 +1,6 @@
 from __future__ import annotations
 
+import sys
 import weakref
 from collections.abc import (
     AsyncGenerator,
@@ -255,5 +256,8 @@ async def wait_event(
         any instance of the containing class
 
     """
-    async with stream_events(signals, filter) as stream:
+    # The queue must not be bounded here: events are filtered on the receiving side, so
+    # a burst of events that do not pass the filter could otherwise fill the queue and
+    # cause the awaited event to be dropped, leaving the caller waiting forever
+    async with stream_events(signals, filter, max_queue_size=sys.maxsize) as stream:
         return await stream.__anext__()
